@@ -548,6 +548,8 @@ impl<'a> FmtVisitor<'a> {
         let body_start = self
             .snippet_provider
             .span_after(span.with_lo(generics.where_clause.span.hi()), "{");
+        // make a span that starts right after `enum Foo`
+        let generics_span = mk_sp(ident.span.hi(), body_start);
         let generics_str = format_generics(
             &self.get_context(),
             generics,
@@ -558,11 +560,12 @@ impl<'a> FmtVisitor<'a> {
                 BracePos::Auto
             },
             self.block_indent,
-            // make a span that starts right after `enum Foo`
-            mk_sp(ident.span.hi(), body_start),
+            generics_span,
             last_line_width(&enum_header),
         )
-        .unwrap();
+        // Generics that cannot be formatted (e.g. a bound wider than `max_width`) are left
+        // as they are written.
+        .unwrap_or_else(|| self.snippet(generics_span).to_owned());
         self.push_str(&generics_str);
 
         self.last_pos = body_start;
